@@ -24,6 +24,9 @@ REG = 35100
 
 MARKERS = b"\xaa\x55\x7f\xc0\xaa\x55\xc0\x7f\xf7\x03\x06\xaa\x55\xf7\x83\x02\x01\x86\xff\xff"
 CONTENT = "pattern"  # module-level switch set per case (content class of the payload)
+MBAP = None          # Modbus/TCP only: value put into the MBAP length field of the answers (None = the consistent one).  GoodWe
+                     # firmware is known to send inconsistent MBAP lengths; the library documents that it ignores the field (D1),
+                     # so such an answer is a valid frame whether it arrives in one piece or two
 
 
 def payload_for(reg, n):
@@ -41,8 +44,10 @@ def frames(transport, count):
         return ("read", REG, count), rw.rtu_read_response(0xF7, payload_for(REG, 2 * count)), \
             rw.rtu_read_response(0xF7, payload_for(REG + 1, 2 * count))
     if transport == "tcp":
-        return ("read", REG, count), rw.tcp_read_response(0x1234, 0xF7, payload_for(REG, 2 * count)), \
-            rw.tcp_read_response(0x1235, 0xF7, payload_for(REG + 1, 2 * count))
+        fa, fb = rw.tcp_read_response(0x1234, 0xF7, payload_for(REG, 2 * count)), rw.tcp_read_response(0x1235, 0xF7, payload_for(REG + 1, 2 * count))
+        if MBAP is not None:
+            fa, fb = (f[:4] + (MBAP & 0xFFFF).to_bytes(2, "big") + f[6:] for f in (fa, fb))
+        return ("read", REG, count), fa, fb
     # AA55: runtime data read, payload length = count (0..255)
     return ("aa55", "010600", "0186"), rw.aa55_response(b"\x01\x86", payload_for(REG, count)), \
         rw.aa55_response(b"\x01\x86", payload_for(REG + 1, count))
@@ -79,11 +84,13 @@ def resolve(spec, F, F2):
 
 
 def check_case(acc: Acc, case):
-    global CONTENT
+    global CONTENT, MBAP
     CONTENT = case.get("content", "pattern")
+    MBAP = case.get("mbap")
     acc.case()
     transport, T, R, count = case["transport"], case["T"], case["R"], case["count"]
     cmd, F, F2 = frames(transport, count)
+    MBAP = None
     script = []
     split = False
     labelled = []  # per transmission: list of (ticks, bytes, spec)
@@ -98,7 +105,7 @@ def check_case(acc: Acc, case):
         if len(pieces) >= 2:
             split = True
     if split:
-        acc.nontrivial(transport, case["keep"], T, R, count, repr(case["tx"]), CONTENT)
+        acc.nontrivial(transport, case["keep"], T, R, count, repr(case["tx"]), CONTENT, case.get("mbap"))
     c = {"transport": transport, "keep": case["keep"], "T": T, "R": R, "script": script, "latency": case.get("latency", 0)}
     obs = netcase.run_single(c, command=cmd)
     out = obs.outcome
@@ -246,6 +253,11 @@ def positive_job(job):
                 _apply(acc, case)
     CONTENT = "pattern"
     cmd, F, F2 = frames(transport, count)
+    if transport == "tcp":   # inconsistent MBAP length fields (firmware quirk the library tolerates), every split point
+        for mbap in (6, 0, 0xFFFF, len(F) - 5, len(F) - 7, 2 * count):
+            for s in range(1, len(F)):
+                _apply(acc, {"transport": transport, "keep": keep, "T": T, "R": R, "count": count, "mbap": mbap,
+                             "tx": [[[2, ["head", s]], [8, ["tail", s]]]]})
     acc.sample({"transport": transport, "keep": keep, "count": count, "frame_len": len(F), "splits": len(F) - 1})
     return acc
 
@@ -288,9 +300,11 @@ def hyp_job(job):
     def cases(draw):
         transport = draw(st.sampled_from(("udp", "aa55", "tcp")))
         count = draw(st.integers(0, 255)) if transport == "aa55" else draw(st.integers(1, 125))
-        global CONTENT
+        global CONTENT, MBAP
         content = draw(st.sampled_from(("pattern", "pattern", "markers", "ff")))
         CONTENT = content
+        mbap = draw(st.one_of(st.none(), st.none(), st.integers(0, 0xFFFF), st.integers(0, 260))) if transport == "tcp" else None
+        MBAP = None
         cmd, F, F2 = frames(transport, count)
         R = draw(st.integers(0, 3))
         s = draw(st.integers(1, max(1, len(F) - 1)))
@@ -308,7 +322,7 @@ def hyp_job(job):
         first = sorted([[draw(st.integers(0, 15)), ["head", s]]] + first, key=lambda e: e[0])
         return {"transport": transport, "keep": draw(st.booleans()), "T": draw(st.sampled_from((0.5, 1.0, 2.0))), "R": R,
                 "count": count, "tx": [first] + draw(st.lists(deliveries, max_size=R)), "latency": draw(st.integers(0, 2)),
-                "content": content}
+                "content": content, "mbap": mbap}
 
     def body(case):
         if len(acc.samples) < 3:
